@@ -195,9 +195,13 @@ def oracle(case, obs):
     if b"<<after-close>>" in delivered:
         return Failure(case, "consumer.dataReceived after consumer.connectionLost", "data-after-close")
     if case.get("desc") is None:
-        # malformed stream: generic statements only
+        # malformed stream: generic statements, plus "a message whose framing is ambiguous or whose head is not
+        # HTTP is never handed to the application as a response"
         if lose and len(fired) != 1:
             return Failure(case, "connection lost but the request Deferred never fired", "deferred-never-fired")
+        if case.get("must_fail") and any(f.startswith("R") for f in fired):
+            return Failure(case, f"a response with an invalid / ambiguous head was delivered: {fired}",
+                           "malformed-head-accepted")
         return None
     head_ok, received, complete = expected(case)
     desc = case["desc"]
@@ -320,6 +324,10 @@ MALFORMED = [
 ]
 
 
+# indices of MALFORMED whose head must never yield a response (for a GET)
+MUST_FAIL = {0, 1, 2, 7, 8, 9, 10, 11, 12, 13, 14, 15, 16, 17, 22}
+
+
 def _h11_responses(rng):
     import h11
     outs = []
@@ -365,12 +373,13 @@ def gen(rng, tier):
                     cases.append({"desc": desc, "t": t, "method": desc["method"].encode().hex(),
                                   "segs": [x.hex() for x in segs], "k": rng.randrange(len(segs) + 1),
                                   "timing": timing, "lose": lose, "persistent": rng.random() < 0.5})
-    for wire in MALFORMED + _h11_responses(rng):
+    for idx, wire in enumerate(MALFORMED + _h11_responses(rng)):
         for t in range(len(wire) + 1):
             if not big and rng.random() < 0.5:
                 continue
             segs = _segment(rng, wire[:t])
-            cases.append({"desc": None, "t": t, "method": rng.choice([b"GET", b"GET", b"HEAD"]).hex(),
+            cases.append({"desc": None, "t": t, "must_fail": idx in MUST_FAIL, "method": b"GET".hex() if idx in MUST_FAIL else
+                          rng.choice([b"GET", b"GET", b"HEAD"]).hex(),
                           "segs": [s.hex() for s in segs], "k": rng.randrange(len(segs) + 1),
                           "timing": rng.choice(TIMINGS), "lose": rng.random() < 0.8, "persistent": rng.random() < 0.5})
     return cases
